@@ -1088,6 +1088,43 @@ def __endOfDoctype(xmlpart):
         i += 1
     return n
 
+def __rootStartTag(xmlpart, start):
+    """
+    finds the start tag of the root element of an XML text
+    @param xmlpart unicode string: some XML code
+    @param start the index behind the document type declaration
+    @return the index of its "<" and the index of the ">" that ends it
+    (attribute values may contain one); the length of the text for what
+    is not there
+    """
+    n = len(xmlpart)
+    i = start
+    # processing instructions, comments
+    while i < n:
+        if xmlpart.startswith(u'<?', i):
+            j = xmlpart.find(u'?>', i)
+            if j < 0: return n, n
+            i = j + 2
+        elif xmlpart.startswith(u'<!--', i):
+            j = xmlpart.find(u'-->', i + 4)
+            if j < 0: return n, n
+            i = j + 3
+        elif xmlpart[i] in u' \t\r\n\ufeff':
+            i += 1
+        else:
+            break
+    begin = i
+    quote = None
+    while i < n:
+        c = xmlpart[i]
+        if quote:
+            if c == quote: quote = None
+        elif c in u'"\'': quote = c
+        elif c == u'>':
+            return begin, i
+        i += 1
+    return begin, n
+
 def __fixXmlPart(xmlpart):
     """
     fixes an xml code when it does not contain a set of requested
@@ -1102,6 +1139,8 @@ def __fixXmlPart(xmlpart):
     # the declarations belong into the root element: never into a document
     # type declaration that precedes it
     start = __endOfDoctype(xmlpart)
+    # ... and only into its start tag: never into text or markup behind it
+    begin, end = __rootStartTag(xmlpart, start)
     # attributes are separated by white space of any kind, not only by a blank
     firstDeclaration = re.compile(u'[ \t\r\n]xmlns:')
     for prefix in requestedPrefixes:
@@ -1113,7 +1152,7 @@ def __fixXmlPart(xmlpart):
             # 2016-02-19 G.K.
             ###########################################
             try:
-                pos=firstDeclaration.search(result, start).start()
+                pos=firstDeclaration.search(result, begin, end+len(result)-len(xmlpart)).start()
                 toInsert=u' xmlns:{prefix}="urn:oasis:names:tc:opendocument:xmlns:{prefix}:1.0"'.format(prefix=prefix)
                 result=result[:pos]+toInsert+result[pos:]
             except:
